@@ -302,7 +302,14 @@ def top(ctx, bstep, bt, btkey):
     ctx.eq('C03.t.rng', A, 'generator', ls.next[rngk], T.app('post0', U2), why='generator threaded through direction draw, tree and acceptance draw', sp=ls.sp)
     sk = [k_ for k_ in ls.lh if ls.init[k_] is T.TRUE]
     pmn, ppn, mmn, mpn = [ls.next[x] for x in (pm, pp, mm, mp)]
-    if len(sk) != 1:
+    cont = T.land(s1, uturn(pmn, ppn, mmn, mpn))
+    if len(sk) == 0 and len(ls.exits) == 1 and ls.exits[0][0] == 'break':
+        # bottom-tested spelling: loop { doubling; if !(s' && no-U-turn) { break } } -- the first doubling always runs, as with a flag
+        # initialised true
+        ctx.eq('C03.t.s', A, 's', ls.exits[0][2], T.lnot(cont), sp=ls.sp, why='doubling continues iff s\' and no-U-turn on the updated edges')
+        ctx.ok('C03.t.loop', A, 'loop', expected='loop { … if !continue { break } } with no other exit', found=show(ls.exits[0][2])[:200], sp=ls.sp,
+               why='the trajectory is doubled until a U-turn or a divergence occurs')
+    elif len(sk) != 1:
         ctx.bad('C03.t.s', A, 's', expected='loop flag initialised true', found='%d candidates' % len(sk), sp=ls.sp, why='doubling continues while s')
     else:
         ctx.eq('C03.t.s', A, 's', ls.next[sk[0]], T.land(s1, uturn(pmn, ppn, mmn, mpn)), sp=ls.sp, why='s := s\' and no-U-turn on the updated edges')
